@@ -70,6 +70,11 @@ class AsyncHTTP2Connection(AsyncConnectionInterface):
         self._max_streams_debt = 0
         self._connection_error = False
 
+        # Requests that have been accepted but have not opened their stream
+        # yet. The connection is in use on their behalf: it must not be
+        # treated as idle (and start to expire) when another stream ends.
+        self._starting_requests = 0
+
         # Mapping from stream ID to response stream events.
         self._events: dict[
             int,
@@ -102,56 +107,60 @@ class AsyncHTTP2Connection(AsyncConnectionInterface):
                 self._request_count += 1
                 self._expire_at = None
                 self._state = HTTPConnectionState.ACTIVE
+                self._starting_requests += 1
             else:
                 raise ConnectionNotAvailable()
 
-        async with self._init_lock:
-            if not self._sent_connection_init:
-                if self._state == HTTPConnectionState.CLOSED:
-                    # A concurrent request failed to set the connection up,
-                    # and closed it. Nothing has been sent for this request.
-                    self._request_count -= 1
-                    raise ConnectionNotAvailable()
-
-                try:
-                    kwargs = {"request": request}
-                    async with Trace("send_connection_init", logger, request, kwargs):
-                        await self._send_connection_init(**kwargs)
-                except BaseException as exc:
-                    with AsyncShieldCancellation():
-                        await self.aclose()
-                    raise exc
-
-                self._sent_connection_init = True
-
-                # Initially start with just 1 until the remote server provides
-                # its max_concurrent_streams value
-                self._max_streams = 1
-
-                local_settings_max_streams = (
-                    self._h2_state.local_settings.max_concurrent_streams
-                )
-                self._max_streams_semaphore = AsyncSemaphore(local_settings_max_streams)
-
-                for _ in range(local_settings_max_streams - self._max_streams):
-                    await self._max_streams_semaphore.acquire()
-
-        while True:
-            await self._max_streams_semaphore.acquire()
-            if self._max_streams_debt > 0:
-                # The server has lowered its limit since this permit was
-                # handed out. It is withheld rather than used.
-                self._max_streams_debt -= 1
-                continue
-            break
-
         try:
-            stream_id = self._h2_state.get_next_available_stream_id()
-            self._events[stream_id] = []
-        except h2.exceptions.NoAvailableStreamIDError:  # pragma: nocover
-            self._used_all_stream_ids = True
-            self._request_count -= 1
-            raise ConnectionNotAvailable()
+            async with self._init_lock:
+                if not self._sent_connection_init:
+                    if self._state == HTTPConnectionState.CLOSED:
+                        # A concurrent request failed to set the connection up,
+                        # and closed it. Nothing has been sent for this request.
+                        self._request_count -= 1
+                        raise ConnectionNotAvailable()
+
+                    try:
+                        kwargs = {"request": request}
+                        async with Trace("send_connection_init", logger, request, kwargs):
+                            await self._send_connection_init(**kwargs)
+                    except BaseException as exc:
+                        with AsyncShieldCancellation():
+                            await self.aclose()
+                        raise exc
+
+                    self._sent_connection_init = True
+
+                    # Initially start with just 1 until the remote server provides
+                    # its max_concurrent_streams value
+                    self._max_streams = 1
+
+                    local_settings_max_streams = (
+                        self._h2_state.local_settings.max_concurrent_streams
+                    )
+                    self._max_streams_semaphore = AsyncSemaphore(local_settings_max_streams)
+
+                    for _ in range(local_settings_max_streams - self._max_streams):
+                        await self._max_streams_semaphore.acquire()
+
+            while True:
+                await self._max_streams_semaphore.acquire()
+                if self._max_streams_debt > 0:
+                    # The server has lowered its limit since this permit was
+                    # handed out. It is withheld rather than used.
+                    self._max_streams_debt -= 1
+                    continue
+                break
+
+            try:
+                stream_id = self._h2_state.get_next_available_stream_id()
+                self._events[stream_id] = []
+            except h2.exceptions.NoAvailableStreamIDError:  # pragma: nocover
+                self._used_all_stream_ids = True
+                self._request_count -= 1
+                raise ConnectionNotAvailable()
+        finally:
+            self._starting_requests -= 1
 
         try:
             kwargs = {"request": request, "stream_id": stream_id}
@@ -476,7 +485,11 @@ class AsyncHTTP2Connection(AsyncConnectionInterface):
             if self._connection_terminated and not self._events:
                 await self.aclose()
 
-            elif self._state == HTTPConnectionState.ACTIVE and not self._events:
+            elif (
+                self._state == HTTPConnectionState.ACTIVE
+                and not self._events
+                and not self._starting_requests
+            ):
                 self._state = HTTPConnectionState.IDLE
                 if self._keepalive_expiry is not None:
                     now = time.monotonic()
